@@ -405,10 +405,19 @@ class Ovld:
 
     @property
     def defns(self):
+        def overlay(new):
+            # A signature replaces what the layers below have under it: all
+            # of it, also what a re-registration there had pushed down
+            sigs = {replace(sig, tiebreak=0) for sig in new}
+            for sig in list(defns):
+                if replace(sig, tiebreak=0) in sigs:
+                    del defns[sig]
+            defns.update(new)
+
         defns = {}
         for mixin in self.mixins:
-            defns.update(mixin.defns)
-        defns.update(self._defns)
+            overlay(mixin.defns)
+        overlay(self._defns)
         return defns
 
     def analyze_arguments(self):
